@@ -127,6 +127,7 @@ struct SharedPage
 {
     volatile int step;
     volatile int in_call;
+    volatile int in_traversal;  // the harness is walking a Document built by the library (dump, monitor, oracle)
     char desc[700];
     char hint[300];
 };
@@ -333,7 +334,8 @@ CallResult RunCtx::call(Session& s, const CallSpec& c, int stepno, bool monitors
     if (monitors && block_call && s.doc && !s.tainted && !r.env_faulted() && is_armed("C06") && !clock_wrapped) {
         std::string w6;
         try {
-            w6 = check_c06_block(*s.doc, errs_before, warns_before, c.bytes, c.entry == E_PROP_FILE ? std::string{} : c.xpath);
+            w6 = check_c06_block(*s.doc, errs_before, warns_before, c.bytes, c.entry == E_PROP_FILE ? std::string{} : c.xpath, clock_before,
+                                 UTAP::tracker.position);
         } catch (const std::exception& e) {
             w6 = std::string{"monitor threw: "} + e.what();
         }
@@ -488,6 +490,10 @@ static Child spawn(const RunSpec& spec)
         seams_init();
         g_on_ceiling = on_ceiling;
         g_on_exit_in_call = on_exit_in_call;
+        g_on_traversal = [](int delta) {
+            if (g_shared)
+                g_shared->in_traversal += delta;
+        };
         signal(SIGALRM, on_alarm);
         // the run process must be pristine: no libutap call has been made in this address space
         if (UTAP::tracker.position != 0) {
@@ -621,6 +627,15 @@ static RunResult reap(Child& c)
             v.signature = sanitizer_signature(r.stderr_text, kind);
             v.cls = "sanitizer";
             v.detail = kind + " during " + desc + " hint=" + hint;
+            if (!c.shared->in_call && c.shared->in_traversal > 0) {
+                v.property = c.spec.armed.empty() || c.spec.armed.count("C08") ? "C08" : "C01";
+                v.cls = "document-traversal-crash";
+                v.signature = "traversal-crash|" + kind + "|" + hint.substr(0, hint.find_first_of("+:"));
+                v.detail = kind + " while the harness traversed the document left by " + desc;
+            } else if (!c.shared->in_call) {
+                v.property = "HARNESS";
+                v.cls = "harness-crash";
+            }
         } else if (WIFSIGNALED(st)) {
             v.cls = "signal";
             // without a sanitizer there are no frames: the call (entry point, back end, syntax) identifies the site
@@ -629,6 +644,14 @@ static RunResult reap(Child& c)
             if (!c.shared->in_call) {
                 v.property = "HARNESS";
                 v.cls = "harness-crash";
+            }
+            if (!c.shared->in_call && c.shared->in_traversal > 0) {
+                // the harness died while walking the public members of a Document: the document is broken (dangling
+                // user-data pointer, null expression where clients expect one), which is what C08 is about
+                v.property = c.spec.armed.empty() || c.spec.armed.count("C08") ? "C08" : "C01";
+                v.cls = "document-traversal-crash";
+                v.signature = "traversal-crash|signal=" + std::to_string(WTERMSIG(st)) + "|" + hint.substr(0, hint.find_first_of("+:"));
+                v.detail = "signal " + std::to_string(WTERMSIG(st)) + " while the harness traversed the document left by " + desc;
             }
         } else {
             v.cls = "abnormal-exit";
